@@ -814,7 +814,10 @@ class C15(Check):
             "inline and broken layouts occur, diff lists, coreferences, strings/regexes over escape-rich alphabets, "
             "docstrings with quotes, quote runs, backslashes, blank lines and indentation; docstring/escape cases "
             "exhaustive over {\", \\, a, LF} up to length 5; mutated token streams for the parser's error branches; "
-            "path set/get cases with random letter case. Non-trivial = has at least one term or character; distinct by "
+            "path set/get cases with random letter case; in every run 288 long files (>1024, >2048, >4096 lexer tokens; 41-484 "
+            "entities; five entity mixes: & chains, dotted paths, lists, docstrings/addenda/lexical rules, environments) "
+            "preceded by k=0..40 one-token line comments so that every later token is swept against the 1024-token "
+            "look-ahead buffer boundaries (k step 1 for >1024, step 4 for the larger ones in the quick tier). Non-trivial = has at least one term or character; distinct by "
             "JSON text.")
     assumptions = [
         "white space inside docstrings and letter-set/affix texts is ' ' and LF only (textwrap.dedent with tabs, "
@@ -825,6 +828,8 @@ class C15(Check):
         "comments inside definitions are not generated (the parser drops them by design)",
         "the text layout (line breaks, indentation) is not modelled: the model is the token stream; text stability is "
         "decided by the direct oracle on the real formatter",
+        "long files of more than 2048 tokens are oracle-only (not sent to the Lean model); the token buffer of "
+        "util.LookaheadIterator is not modelled (the model parser works on a plain token list)",
         "the regex-based lexer is not modelled at character level except for docstrings/block comments (_bounded) and "
         "letter-set bodies; it is exercised for real on every formatted text",
     ]
